@@ -35,6 +35,9 @@ struct G {
     tact: Vec<Vec<usize>>,  // indices (1-based) into moves
     chk: Vec<bool>,
     ev: Vec<i32>,
+    mattr: Vec<Vec<[i64; 5]>>,            // per move: [type, attacker kind, kind on the target square, move id, history key id]
+    mids: HashMap<(u8, u8, usize, u8), i64>, // identity of a Move (from, to, piece, type) -> id
+    hids: HashMap<(u8, u8), i64>,          // history key (from, to) -> id
 }
 
 impl G {
@@ -49,6 +52,7 @@ impl G {
         self.tact.push(vec![]);
         self.chk.push(false);
         self.ev.push(0);
+        self.mattr.push(vec![]);
         let i = self.boards.len();
         self.index.insert(k, i);
         i
@@ -64,6 +68,24 @@ impl G {
         let chk = mg.is_in_check(b);
         let q = if chk { vec![] } else { mg.generate_quiescence_moves(b) };
         let kids: Vec<usize> = ms.iter().map(|m| self.id(&b.clone_with_move(m))).collect();
+        let cs = proj::codes(b);
+        let kind = |c: i32| -> i64 { if c == 0 { 0 } else { ((c - 1) % 6 + 1) as i64 } };
+        let mut attrs = vec![];
+        for m in &ms {
+            let ty: u8 = match m.move_type {
+                MoveType::Quiet => 0,
+                MoveType::Capture => 1,
+                MoveType::EnPassant => 2,
+                MoveType::Castle => 3,
+                MoveType::Promotion => 4,
+            };
+            let n1 = self.mids.len() as i64 + 1;
+            let mid = *self.mids.entry((m.from, m.to, m.piece_type.index(), ty)).or_insert(n1);
+            let n2 = self.hids.len() as i64 + 1;
+            let hid = *self.hids.entry((m.from, m.to)).or_insert(n2);
+            attrs.push([ty as i64, kind(cs[m.from as usize]), kind(cs[m.to as usize]), mid, hid]);
+        }
+        self.mattr[i - 1] = attrs;
         self.tact[i - 1] = q.iter().filter_map(|m| ms.iter().position(|x| x == m).map(|j| j + 1)).collect();
         self.moves[i - 1] = kids;
         self.chk[i - 1] = chk;
@@ -105,7 +127,8 @@ fn case(mg: &MoveGenerator, root: &Board, d: u8, aborts: u32, budget: u64, hist:
         tables.push(s.verif_tt_entries());
     }
     // ---- the graph: every position entered by the search, expanded
-    let mut g = G { index: HashMap::new(), boards: vec![], expanded: vec![], moves: vec![], tact: vec![], chk: vec![], ev: vec![] };
+    let mut g = G { index: HashMap::new(), boards: vec![], expanded: vec![], moves: vec![], tact: vec![], chk: vec![], ev: vec![],
+                    mattr: vec![], mids: HashMap::new(), hids: HashMap::new() };
     let mut evl = Evaluator::new();
     // ids 1..M are the positions the search entered (the table and the evaluation are only ever
     // consulted there); their other children get ids above M
@@ -182,9 +205,11 @@ fn case(mg: &MoveGenerator, root: &Board, d: u8, aborts: u32, budget: u64, hist:
     g.tact.truncate(n);
     g.chk.truncate(n);
     g.ev.truncate(n);
+    g.mattr.truncate(n);
     Some(json!({
         "fen": proj::project(root), "D": d, "aborts": aborts, "budget": budget,
-        "graph": {"n": n, "moves": g.moves, "tact": g.tact, "chk": g.chk, "ev": g.ev, "hist": hist_ids, "all_positions": g.boards.len()},
+        "graph": {"n": n, "moves": g.moves, "tact": g.tact, "chk": g.chk, "ev": g.ev, "hist": hist_ids, "all_positions": g.boards.len(),
+                   "mattr": g.mattr, "nh": g.hids.len()},
         "events": out,
     }))
 }
